@@ -211,7 +211,9 @@ def prepare_haplotag_information(
             haplotype_costs = defaultdict(lambda: [0] * ploidy)
 
             processed_reads.add(read.name)
-            reads_to_consider = {read}
+            # a list, not a set: Read objects hash by address, and the order in which the reads of a
+            # cloud are visited decides which of several equally supported phase sets comes first
+            reads_to_consider = [read]
 
             # reads with same BX tag need to be considered too (unless --ignore-linked-read is set)
             if not ignore_linked_read and read.has_BX_tag():
@@ -219,7 +221,7 @@ def prepare_haplotag_information(
                     if r.name not in processed_reads:
                         # only select reads close to current one
                         if abs(read.reference_start - r.reference_start) <= linked_read_cutoff:
-                            reads_to_consider.add(r)
+                            reads_to_consider.append(r)
 
             for r in reads_to_consider:
                 processed_reads.add(r.name)
